@@ -187,7 +187,7 @@ func TestChunkinfoReqResp(t *testing.T) {
 		ctx, cancel := context.WithTimeout(context.Background(), 20*time.Second)
 		res := make(chan bool, 1)
 		go func() { res <- n.ci.FindChunkInfo(ctx, nil, R, []boson.Address{peerX}) }()
-		for i := 0; i < 4000 && !n.ci.IsDiscover(R); i++ {
+		for i := 0; i < 240000 && !n.ci.IsDiscover(R); i++ { // up to 2 minutes on a loaded machine
 			time.Sleep(500 * time.Microsecond)
 		}
 		if !n.ci.IsDiscover(R) {
